@@ -133,7 +133,7 @@ func checkC20(c *Ctx) {
 	c.Level = "model_checking"
 	c.Set("rule", "LitConv.tla states Go's rune-literal rule and a transcription of RuneValue/escapeCharVal; TLC enumerates every valid ASCII-spelled literal with digits from the boundary digit set (named, octal, \\x, \\u, \\U escapes; boundaries 0x7f/0x80/0xff, 0xd7ff/0xe000, 0xffff/0x10000, 0x10ffff) and checks agreement; every enumerated literal is then replayed on (i) the generated util.RuneValue, (ii) the generator's util.LitToRune (go test -overlay), (iii) a one-token grammar through the real gocc whose generated lexer must accept exactly that code point; outside TLC (pure-function territory) a Go loop sweeps all scalar values x all spellings against strconv.UnquoteChar and IntValue/UintValue against strconv on boundary decimals. distinct_nontrivial counts enumerated escape literals")
 	c.Assume("strconv.UnquoteChar is the definition of Go's literal semantics for the sweep")
-	r := c.RunTLC(TLCOpts{Module: "LitConv", Cfg: "LexRefEval.cfg", Workers: 1, Timeout: 20 * time.Minute})
+	r := c.RunTLC(TLCOpts{Module: "LitConv", Cfg: map[bool]string{true: "LitConv_quick.cfg", false: "LitConv_thorough.cfg"}[c.Quick()], Workers: 1, Timeout: 40 * time.Minute})
 	if !r.OK {
 		infra("LitConv.tla: transcription and Go rule disagree, or TLC failed (%s): needs attention\n%s", r.ErrKind, tail(filterTLC(r.Out), 30))
 	}
